@@ -328,7 +328,13 @@ func clientScenarios(out *cq.Out, rng *cq.Rng, seed uint64, tier string) {
 			if discovery && revive {
 				var last error
 				for k := 0; k < 4; k++ {
+					s.mu.Lock()
+					before := len(s.log)
+					s.mu.Unlock()
 					_, last = c.Add("y")
+					s.mu.Lock()
+					steps = append(steps, fmt.Sprintf("convergence write %d: err=%v reqs=%v", k, last != nil, s.log[before:]))
+					s.mu.Unlock()
 				}
 				if last != nil {
 					desc["steps"] = steps
